@@ -39,7 +39,7 @@ LayersAgree(s, w) ==
   { <<"C08.layers_agree", s.inp = w.src /\ s.w = w.del>> }
 
 Why(e) ==
-  IF e.op \in WrapOps \/ (e.op \in {"panic", "timeout", "livelock"})
+  IF e.op \in WrapOps \/ (e.op \in {"panic", "timeout", "livelock", "stalled"})
   THEN LET w2 == WEff(ws, e)
            r  == WRules(ws, e) \cup (IF e.op \in {"wparse", "wparsenil"} THEN LayersAgree(st, w2) ELSE {})
        IN { x[1] : x \in { y \in r : ~y[2] } }
